@@ -56,8 +56,8 @@ func runC20(e *Engine, tier Tier) *PropRun {
 			return (o.Kind == "post" || o.Kind == "inv-init" || o.Kind == "inv-pres") && strings.Contains(o.Name, "cost()")
 		},
 		Level:       "other",
-		Explanation: "Cost contracts over a ghost step counter: one step per loop-header passage plus the assumed cost of library calls, concatenations and conversions. Every function under a cost contract is proved to spend at most a linear function of the bytes it consumes (cursor advance) plus a constant, or - on an error path, taken at most once per run - of the input length; the main loops of Tokenize / TokenizeContext carry the telescoped bound as an invariant, so a whole run is linear in len(input) (the line-table pre-scan is one pass). Position queries (toSQLPosition) are bounded by the distance from the previous query plus a binary search.",
-		NotCovered:  []string{"the parser as a whole (recursive descent: cost per token consumed) - only its name / type-list / mode-word builders are under cost contracts; token conversion; AST serialisation (the quadratic rendering of long operator chains was found by measurement and repaired, not proved); the AST-walking part of the security scanner", "allocation and garbage-collection cost; memory growth of append is taken as amortised constant per element", "the regular-expression passes of ScanSQL (RE2 matching is assumed linear)"},
+		Explanation: "Cost contracts over a ghost step counter: one step per loop-header passage plus the assumed cost of library calls, concatenations and conversions. Every function under a cost contract is proved to spend at most a linear function of the bytes it consumes (cursor advance) plus a constant, or - on an error path, taken at most once per run - of the input length; the main loops of Tokenize / TokenizeContext carry the telescoped bound as an invariant, so a whole run is linear in len(input) (the line-table pre-scan is one pass). Position queries (toSQLPosition) are bounded by the distance from the previous query plus a binary search. The token conversion costs a constant per token plus four steps per byte of token text handed to the keyword re-typing functions (ghost accumulator acc(), fed by the `accrues` clause of convertSingleToken); the parser's dotted-name, type-parameter and mode-word builders cost a constant per token plus the length of the text built; the dollar-quote stripper of the scanner is one pass.",
+		NotCovered:  []string{"the parser as a whole (recursive descent: cost per token consumed) - only its name / type-list / mode-word builders and the token conversion are under cost contracts; AST serialisation (the quadratic rendering of long operator chains was found by measurement and repaired, not proved); the AST-walking part of the security scanner", "allocation and garbage-collection cost; memory growth of append is taken as amortised constant per element", "the regular-expression passes of ScanSQL (RE2 matching is assumed linear)"},
 		Assumptions: append([]string{"every instruction other than a loop back-edge, a call, a string concatenation or a string/byte conversion costs O(1) and is not counted", "clauses of the same contracts that belong to other properties (cursor invariant tz_ok, progress) are assumed here and discharged by the C01/C04 checks"}, al...),
 	}
 }
